@@ -113,6 +113,13 @@ def a1(ctx):
         if role_mentions_call(sr, "make"):
             n_make += 1
             _both_queues_on_change(ctx, crate, b, bi, None, key, store_stmt=s)
+            # the update is unconditional: every path through the updater stores merge(old, make(node)).  ("The node is about to be
+            # re-canonicalised anyway" is no reason to skip — that one run on the old shape is the only time the parent of a
+            # merged-away class sees the survivor's datum)
+            if b is root:
+                ctx.check(root.must_pass([0], root.return_blocks(), {bi}), "update-unconditional:" + key, "every path through %s re-makes and joins the datum" % C.short(root.id),
+                          "%s can return without re-making the datum of the handled e-node: a parent whose child class was merged into a class with a different datum keeps the value computed from the dead child's old datum (datum != join of make over the e-nodes; modify is never triggered)" % C.short(root.id),
+                          where_of(root))
             # make() is applied to the e-node this update is about: the node parameter of the updater, not some other node of the class
             node_params = [root.var_names.get(l) for l in range(1, root.argc + 1) if root.local_ty(l).lstrip("&").strip() == "L"]
             for x in role_walk(sr):
